@@ -11,12 +11,18 @@ I0 == L(Z3, <<0, 0>>, Z3, Z3, Z3, Z3)
 \* main ledger at the balance limit, empty sub-ledgers
 I1 == L(<<899, 5, 0>>, <<0, 0>>, Z3, Z3, Z3, Z3)
 \* executor 1 at the balance limit, executor 2 small
-I2 == L(<<5, 5, 5>>, <<900, 14>>, <<890, 5, 0>>, <<0, 5, 0>>, <<5, 0, 0>>, <<0, 0, 9>>)
+I2 == L(<<895, 5, 5>>, <<900, 14>>, <<890, 5, 0>>, <<0, 5, 0>>, <<5, 0, 0>>, <<0, 0, 9>>)
 \* every account moderately funded (most operations succeed)
 I3 == L(<<20, 20, 20>>, <<50, 18>>, <<20, 20, 0>>, <<10, 0, 0>>, <<9, 0, 9>>, Z3)
 \* sub-ledger of executor 1 near the integer limit (reached through raw deposits: dep > 0)
 I4 == L(<<10, 0, 9>>, <<900, 0>>, <<915, 0, 0>>, <<5, 913, 0>>, Z3, Z3)
 
 MCInits == {I0, I1, I2, I3, I4}
-MCInitsQ == {I1, I2, I3, I4}
+
+\* the same shapes for 2 users / 1 executor (deep runs)
+D(b, x, sb1, sf1) == [bal |-> b, x |-> <<x>>, sb |-> <<sb1>>, sf |-> <<sf1>>]
+MCInitsD == {D(<<0, 0>>, 0, <<0, 0>>, <<0, 0>>),
+             D(<<895, 5>>, 900, <<890, 5>>, <<0, 5>>),
+             D(<<20, 20>>, 50, <<20, 20>>, <<10, 0>>),
+             D(<<10, 0>>, 900, <<915, 0>>, <<5, 913>>)}
 =============================================================================
